@@ -35,6 +35,7 @@ type Script struct {
 	Quiesce bool     `json:"quiesce"`
 	Block   bool     `json:"block"` // wrapped writer never returns
 	Free    bool     `json:"free"`
+	Foreign bool     `json:"foreign"` // generated from a model with other constants: skipped steps are expected
 	Seed    int64    `json:"seed"`
 }
 
@@ -200,7 +201,7 @@ func (r *run) step(name string, scripted bool) bool {
 	if t == nil || !vsched.CanRun(t) {
 		if scripted {
 			r.drift++
-			emit(implW, ev{"a": "Skip", "t": name})
+			emit(implW, ev{"a": "Skip", "t": name, "expected": r.sc.Quiesce || r.sc.Foreign})
 		}
 		return false
 	}
@@ -311,7 +312,7 @@ func play(sc Script) (hung bool) {
 	if sc.Free {
 		rng := rand.New(rand.NewSource(sc.Seed))
 		closeAt := rng.Intn(4) // 0: only when all producers are done
-		for i := 0; i < 5000 && !r.hung; i++ {
+		for i := 0; i < 3000 && !r.hung; i++ {
 			var en []string
 			for _, n := range r.order {
 				if n == "CL" && !r.closing && !(r.allProducersDone() || (closeAt == 1 && rng.Intn(40) == 0)) {
@@ -342,7 +343,7 @@ func play(sc Script) (hung bool) {
 		}
 	}
 	// finish: deterministic round-robin until everything has ended or nothing can run
-	for i := 0; i < 20000 && !r.hung; i++ {
+	for i := 0; i < 400 && !r.hung && r.steps < 6000; i++ {
 		if sc.Quiesce && !r.closing && !sc.Block && r.allProducersDone() && r.lastQ < r.returned {
 			r.quiesce(true)
 		}
@@ -371,7 +372,7 @@ func play(sc Script) (hung bool) {
 		obs(ev{"a": "EndBlocked", "total": sc.P * sc.W})
 	} else if !r.closed {
 		st := r.state()
-		obs(ev{"a": "Stuck", "g": st["g"], "cancelled": r.cancelled})
+		obs(ev{"a": "Stuck", "g": st["g"], "cancelled": r.cancelled, "steps": r.steps})
 	}
 	emit(implW, ev{"a": "End", "steps": r.steps, "drift": r.drift})
 	return false
